@@ -363,7 +363,7 @@ theorem unit_minimiser_iff_normal_equations (A : Matrix m n K) (b : m → K) (x 
       have e : -(2 * (q / s) * q) + (q / s) ^ 2 * s = -(q ^ 2 / s) := by
         field_simp
         ring
-      have hpos : 0 < q ^ 2 / s := by positivity
+      have hpos : 0 < q ^ 2 / s := div_pos (pow_pos hq0 2) hs1
       rw [e] at h1
       linarith
   · intro h y
@@ -463,24 +463,31 @@ example :
   · funext i; fin_cases i <;>
       simp [L, b, b', Matrix.mulVec, dotProduct, Fin.sum_univ_three] <;> norm_num
 
-/-- Item 9 instance: `σ = (2, 3)`. -/
-example : (∀ i, (![2, 3] : Fin 2 → ℚ) i ≠ 0) := by
-  intro i; fin_cases i <;> simp
+/-- Item 9 instance: `σ = (2, 3)`; weights are `1/4`, `1/9`. -/
+example :
+    Matrix.diagonal (fun i => (![2, 3] : Fin 2 → ℚ) i ^ 2)
+        * Matrix.diagonal (fun i => 1 / (![2, 3] : Fin 2 → ℚ) i ^ 2) = 1 ∧
+      Matrix.diagonal (![2, 3] : Fin 2 → ℚ) *ᵥ (fun i => (![6, 6] : Fin 2 → ℚ) i / ![2, 3] i)
+        = ![6, 6] :=
+  have hσ : ∀ i, (![2, 3] : Fin 2 → ℚ) i ≠ 0 := by intro i; fin_cases i <;> simp
+  let h := diagonal_equals_stdev (n := Fin 1) (![2, 3] : Fin 2 → ℚ) hσ 0 ![6, 6]
+  ⟨h.2.1, h.2.2.2⟩
 
 /-- Item 11 (stretch): the inverse of the sub-matrix of the covariance matrix is NOT the
     sub-matrix of the weight matrix.  `C = [[2,1],[1,2]]`, active row `0` only:
     `(C₀₀)⁻¹ = 1/2` but `(C⁻¹)₀₀ = 2/3`.  So excluding an observation by taking the
     sub-matrix of the WEIGHT matrix would be wrong. -/
 example :
-    ((!![2, 1; 1, 2] : Matrix (Fin 2) (Fin 2) ℚ).submatrix (fun _ : Fin 1 => 0) (fun _ => 0))⁻¹
+    ((!![2, 1; 1, 2] : Matrix (Fin 2) (Fin 2) ℚ).submatrix (fun _ : Fin 1 => 0)
+        (fun _ : Fin 1 => 0))⁻¹
       ≠ ((!![2, 1; 1, 2] : Matrix (Fin 2) (Fin 2) ℚ)⁻¹).submatrix (fun _ : Fin 1 => 0)
-          (fun _ => 0) := by
+          (fun _ : Fin 1 => 0) := by
   have h1 : (!![2, 1; 1, 2] : Matrix (Fin 2) (Fin 2) ℚ)⁻¹ = !![2/3, -1/3; -1/3, 2/3] :=
     Matrix.inv_eq_right_inv (by
       ext i j; fin_cases i <;> fin_cases j <;> simp [Matrix.mul_apply, Fin.sum_univ_two]
         <;> norm_num)
   have h2 : ((!![2, 1; 1, 2] : Matrix (Fin 2) (Fin 2) ℚ).submatrix (fun _ : Fin 1 => 0)
-      (fun _ => 0))⁻¹ = Matrix.of (fun _ _ => (1/2 : ℚ)) :=
+      (fun _ : Fin 1 => 0))⁻¹ = Matrix.of (fun _ _ => (1/2 : ℚ)) :=
     Matrix.inv_eq_right_inv (by
       ext i j; fin_cases i; fin_cases j; simp [Matrix.mul_apply])
   intro h
@@ -500,12 +507,20 @@ example : ∃ (C P : Matrix (Fin 2) (Fin 2) ℚ) (P₀ : Matrix (Fin 1) (Fin 1) 
     have h3 := congrFun (congrFun h 0) 0
     norm_num [Matrix.submatrix_apply, Matrix.of_apply] at h3
 
-/-- Block instance for item 10: two blocks of sizes 1 and 2. -/
+/-- Block instance for item 10 with genuinely dependent block sizes (1 and 2):
+    lower-triangular `Lb k` with non-zero diagonal, `Cb`, `Ab`, `bb` built from them. -/
 example :
     let Lb : ∀ k : Fin 2, Matrix (Fin (k.val + 1)) (Fin (k.val + 1)) ℚ :=
-      fun k => Matrix.of fun i j => if j ≤ i then (i.val + j.val + 1 : ℚ) else 0
-    ∀ k, (fun k => Lb k * (Lb k)ᵀ) k = Lb k * (Lb k)ᵀ := by
-  intro Lb k; rfl
+      fun _ => Matrix.of fun i j => if j ≤ i then (i.val + j.val + 1 : ℚ) else 0
+    let A'b : ∀ k : Fin 2, Matrix (Fin (k.val + 1)) (Fin 2) ℚ :=
+      fun k => Matrix.of fun i j => (k.val + i.val + 2 * j.val : ℚ)
+    let b'b : ∀ k : Fin 2, Fin (k.val + 1) → ℚ := fun k i => (k.val - i.val : ℚ)
+    Matrix.blockDiagonal' (fun k => Lb k * (Lb k)ᵀ)
+        = Matrix.blockDiagonal' Lb * (Matrix.blockDiagonal' Lb)ᵀ ∧
+      Matrix.blockDiagonal' Lb * stackRows A'b = stackRows (fun k => Lb k * A'b k) ∧
+      Matrix.blockDiagonal' Lb *ᵥ stackVec b'b = stackVec (fun k => Lb k *ᵥ b'b k) := by
+  intro Lb A'b b'b
+  exact blockwise (fun _ => rfl) (fun _ => rfl) (fun _ => rfl)
 
 end Examples
 
